@@ -391,6 +391,7 @@ func (c15) Eval(c *Chooser, env *Env) *Outcome {
 	if cwd != root {
 		o.probe("runs_from_other_cwd", 1)
 	}
+	o.Digest = DigestOf(rf.Stdout, rf.Exit)
 	if v := runFailure("C15", rf.K); v != nil {
 		o.V = v
 		return o
